@@ -64,7 +64,7 @@ def check(tier, seed):
     rep = core.Report("C11", tier, seed)
     rep.rule = ("round-trip cases: every leaf variant of the IR (constant, boundary contents, unresolved) under 0..Depth "
                 "wrappers (every node type x child position) in every transaction slot, enumerated by TLC (MC_Wire), plus seeded "
-                "random depth-6 transactions; each is encoded, decoded with the declared version, compared structurally, by "
+                "random depth-6 transactions and transactions with one long leaf (23..70001 bytes, characters or elements); each is encoded, decoded with the declared version, compared structurally, by "
                 "find_params/find_queries and after identical application. garbage cases: seeded bit flips, truncations, "
                 "splices of valid encodings, every length header of an encoding inflated in turn, nesting bombs and random bytes. non-trivial round trip: the term contains at least "
                 "one non-leaf node; distinct = distinct terms / distinct byte strings.")
@@ -88,7 +88,11 @@ def check(tier, seed):
     rep.extra["enumerated_terms"] = len(cases)
     nrand = 1500 if quick else 15000
     rcases = [terms.rtx(rng, 6) for _ in range(nrand)]
+    # long leaves: lengths around every width of a CBOR length header and around decoder buffer sizes
+    for n in terms.STRETCH:
+        rcases += [terms.stretched_tx(rng, n) for _ in range(4 if quick else 20)]
     rep.extra["random_terms"] = nrand
+    rep.extra["stretched_terms"] = len(rcases) - nrand
     allc = cases + rcases
     jobs = []
     nmut = 0
